@@ -21,11 +21,11 @@ func init() {
 		NotCovered:  "Where newlines are accepted (that defines the grammar), CRLF handling, equality of the trees of re-laid-out programs.",
 		Assumptions: []string{"the parser takes the position of lexer errors from the token returned with the error"},
 		Rules: []*core.Rule{
-			{ID: "C20-R1", Title: "token start recorded after the last skip", Floor: 2, Run: c20r1},
+			{ID: "C20-R1", Title: "token start recorded after the last skip", Floor: 1, Run: c20r1},
 			{ID: "C20-R2", Title: "lexer errors return positioned tokens", Floor: 4, Run: c20r2},
 			{ID: "C20-R3", Title: "error rendering cannot fail", Floor: 1, Run: c20r3},
 			{ID: "C20-R4", Title: "one token per diagnostic; errors built from the parser's own tokens", Floor: 6, Run: c20r4},
-			{ID: "C20-R5", Title: "operator precedence fixed before advancing", Floor: 2, Run: c20r5},
+			{ID: "C20-R5", Title: "operator precedence fixed before advancing", Floor: 1, Run: c20r5},
 			{ID: "C20-R7", Title: "character positions (rune indices) are not used as byte offsets (shared with C16-R5)", Floor: 10, Run: unitsRule},
 			{ID: "C20-R8", Title: "source-order comparisons are lexicographic (shared with C05-R5)", Floor: 1, Run: lexicographicBoth},
 			{ID: "C20-R9", Title: "the lexer indexes and slices only under a length test (shared with C03-R10)", Floor: 1, Run: lexerIndexingGuarded},
@@ -36,7 +36,7 @@ func init() {
 			{ID: "C20-R13", Title: "diagnostics are not built by using a message as a format (shared with C01)", Floor: 1, Run: messagesAreNotFormats},
 			{ID: "C20-R14", Title: "the lexer's cursor stops just past the input", Floor: 1, Run: cursorStopsJustPastTheInput},
 			{ID: "C20-R15", Title: "fragments parsed on their own are rebased to their place in the source", Floor: 1, Run: fragmentsAreRebased},
-			{ID: "C20-R16", Title: "comments are skipped until none is left", Floor: 2, Run: commentsAreSkippedUntilNoneIsLeft},
+			{ID: "C20-R16", Title: "comments are skipped until none is left", Floor: 1, Run: commentsAreSkippedUntilNoneIsLeft},
 			{ID: "C20-R17", Title: "closers are tested after the newlines", Floor: 2, Run: closersAreTestedAfterTheNewlines},
 			{ID: "C20-R18", Title: "binary operators step over newlines", Floor: 3, Run: binaryOperatorsStepOverNewlines},
 			{ID: "C20-R19", Title: "closers of sequences are expected after the newlines", Floor: 3, Run: closersAreExpectedAfterTheNewlines},
